@@ -641,7 +641,8 @@ def plateau_case(draw, tier):
     # a stored plateau range that differs from the one passed explicitly: the argument decides (documented default rule)
     oa, ob = sorted(draw(st.lists(st.integers(0, T - 1), min_size=2, max_size=2, unique=True)))
     spec['other'] = [oa, ob] if [oa, ob] != [a, b] else [0, T - 1] if [a, b] != [0, T - 1] else [0, max(1, T - 2)]
-    spec['gamma'] = draw(st.sampled_from(['before', 'auto']))
+    spec['gamma'] = draw(st.sampled_from(['before', 'before', 'auto']))
+    spec['gm'] = draw(st.sampled_from([{}, {'S': 0.7}, {'S': 4.0}, {'S': 0}, {'S': 1.0}]))
     return spec
 
 
@@ -665,7 +666,9 @@ def plateau_oracle(spec):
         if spec['gamma'] == 'auto':
             kw['auto_gamma'] = True
         else:
-            corr.gamma_method()
+            # the user's own analysis (not necessarily with default parameters) defines the weights of the fit
+            corr.gamma_method(**spec.get('gm', {}))
+    dv_before = {t: float(corr.content[t][0].dvalue) for t in idx} if (method == 'fit' and spec['gamma'] != 'auto') else None
     what = 'plateau(%s, method=%r)' % ([a, b] if via in ('arg', 'arg_over_prange') else 'prange=%r' % ([a, b],), method)
     buf = io.StringIO()
     try:
@@ -685,6 +688,8 @@ def plateau_oracle(spec):
             n = len(ops)
             if method == 'fit':
                 dv = [float(corr.content[t][0].dvalue) for t in idx]
+                if dv_before is not None:
+                    dv = [dv_before[t] for t in idx]      # the errors the correlator carried when plateau was called are the weights
                 if not all(np.isfinite(x) and x > 0 for x in dv):
                     raise Skip('vanishing error of an input slice')
                 w = [1.0 / x ** 2 for x in dv]
